@@ -156,6 +156,7 @@ type c05Outcome struct {
 	Detail  string // panic line / error text
 	Frame   string // first qryn frame of a crash
 	Elapsed int
+	Alloc   uint64 // TotalAlloc delta of the child over the request (0 when the child died)
 }
 
 func c05Class(status int) string {
@@ -209,11 +210,11 @@ func (p *c05Proc) Do(rq c05Request, deadlineMs int) (o c05Outcome, dead bool) {
 	switch {
 	case a.Timeout:
 		p.Kill()
-		return c05Outcome{Class: "hang", Detail: a.Err, Elapsed: a.ElapsedMs}, true
+		return c05Outcome{Class: "hang", Detail: a.Err, Elapsed: a.ElapsedMs, Alloc: a.Alloc}, true
 	case a.Aborted:
-		return c05Outcome{Class: "abort", Detail: a.Err, Elapsed: a.ElapsedMs}, false
+		return c05Outcome{Class: "abort", Detail: a.Err, Elapsed: a.ElapsedMs, Alloc: a.Alloc}, false
 	}
-	return c05Outcome{Class: c05Class(a.Status), Status: a.Status, Elapsed: a.ElapsedMs}, false
+	return c05Outcome{Class: c05Class(a.Status), Status: a.Status, Elapsed: a.ElapsedMs, Alloc: a.Alloc}, false
 }
 
 func (p *c05Proc) Census() (c05Ans, error) {
